@@ -161,6 +161,20 @@ package notify
 //@   abstract
 //@   nosafe
 //@   ensures [returns-input] result1 == alerts && result0 == ctx
+//@   ensures [every-integration-started-and-awaited] count("go.stmt") == len(fs) && called("WaitGroup).Wait")
+//@   at call WaitGroup).Add assert [waits-for-all] arg1 == len(fs)
+//@   at call WaitGroup).Wait assert [wait-after-starting-all] count("go.stmt") == len(fs) && called("WaitGroup).Add")
+//@   loop 1 invariant rangeindex < len(fs) && count("go.stmt") == rangeindex + 1 && called("WaitGroup).Add") && !called("WaitGroup).Wait")
+// one integration's pipeline inside the fan-out: it gets the same batch, its failure is joined into the stage's error,
+// and it always signals completion
+//@ func (FanoutStage).Exec$1
+//@   props C20
+//@   nosafe
+//@   at call Stage).Exec assert [same-batch-to-every-integration] arg0 == s && arg3 == deref(alerts) && arg1 == deref(ctx)
+//@   ensures [failure-is-joined] called("Stage).Exec") && (ret2("Stage).Exec") != nil ==> called("errors.Join") && deref(errs) == ret("errors.Join"))
+//@   at call errors.Join assert [join-only-failures] ret2("Stage).Exec") != nil
+//@   ensures [completion-signalled] called("WaitGroup).Done")
+//@   noeffect Stage).Exec
 
 // C04/C20: the notification is recorded with an expiry of twice the repeat interval
 //@ func (SetNotifiesStage).Exec
